@@ -34,7 +34,17 @@ static KeySearch find_keys(int want) {
         for (uint32_t l = 0; l < 256; l++) tcand.push_back(make_tag(l, t));
     std::vector<bool> sused(cand.size()), tused(tcand.size());
     for (int i = 0; i < want; i++) {
-        for (size_t c = 0; c < cand.size(); c++)
+        // keys 1 and 4 are EXTENSIONS of keys 0 and 2 (same home slot): a look-up that compares only a prefix, or only up to the
+        // length of one of the two strings, confuses them exactly when they share a probe chain
+        bool extended = false;
+        if ((i == 1 || i == 4) && (int)ks.skeys.size() > (i == 1 ? 0 : 2)) {
+            const std::string& base = ks.skeys[i == 1 ? 0 : 2];
+            for (int pass = 0; pass < 2 && !extended; pass++)   // prefer an extension that collides modulo 16 as well
+                for (size_t c = 0; c < cand.size() && !extended; c++)
+                    if (!sused[c] && cand[c].size() > base.size() && cand[c].compare(0, base.size(), base) == 0 && (int)(hash(cand[c].c_str()) % 8) == plan[i] &&
+                        (pass == 1 || hash(cand[c].c_str()) % 16 == hash(base.c_str()) % 16)) { sused[c] = true; ks.skeys.push_back(cand[c]); extended = true; }
+        }
+        for (size_t c = 0; c < cand.size() && !extended; c++)
             if (!sused[c] && (int)(hash(cand[c].c_str()) % 8) == plan[i]) { sused[c] = true; ks.skeys.push_back(cand[c]); break; }
         for (size_t c = 0; c < tcand.size(); c++)
             if (!tused[c] && tcand[c] != 0 && (int)(hash(tcand[c]) % 8) == plan[i]) { tused[c] = true; ks.tkeys.push_back(tcand[c]); break; }
